@@ -1022,6 +1022,11 @@ fn c05(ctx: &BoardCtx, p: &Pos, fen: &str, b: &mut Bitboard) {
         }
         if ref_legal.is_empty() && !p.in_check(p.stm) && p.pseudo_legal().iter().any(|m| m.is_ep) {
             *local.entry("stalemates_with_a_pseudo_legal_en_passant_capture").or_insert(0) += 1;
+            // ... in which the capturing pawn does not share the king's rank (the capture would open a diagonal)
+            let king_row = (0..64u8).find(|&sq| p.board[sq as usize] == pc(p.stm, KING)).map(row_of);
+            if p.pseudo_legal().iter().any(|m| m.is_ep && Some(row_of(m.from)) != king_row) {
+                *local.entry("stalemates_with_an_en_passant_capture_that_would_open_a_diagonal").or_insert(0) += 1;
+            }
         }
         if !ref_legal.is_empty() && ref_legal.iter().all(|m| m.is_ep) {
             *local.entry("states_whose_only_legal_moves_are_en_passant_captures").or_insert(0) += 1;
